@@ -16,7 +16,7 @@ import os, json, binascii
 from .. import common, build, conf as C
 
 REG_ALL = [('G', 'r'), C.reg_string('a', 'd'), C.reg_string('n', '5', 2), C.reg_list('b', 'd1', 'd2'), C.reg_inaddr('h', 'dh', 'ds'),
-           C.reg_object('o'), C.reg_string('o/x', 'dx'), C.reg_object('o/p'), C.reg_string('o/p/z', None)]
+           C.reg_object('o'), C.reg_string('o/x', 'dx'), C.reg_object('o/p'), C.reg_string('o/p/z', None), C.reg_object('e')]      # 'e': a registered section without children
 F0 = b'a one\nb (u, v)\nh host 80\nn 7\no {\n x 1\n p {\n  z 2\n }\n q extra\n}\nc unreg\n'
 F1 = b'a two\no {\n x 1\n}\n'
 
@@ -61,6 +61,9 @@ o {
   k other
 }
 n 321
+e {
+  k v; k2 v2; k3 (a, b)
+}
 h "::1" 8080
 h "host.example" "http"
 l2 (one, two)
@@ -169,7 +172,10 @@ def main(tier):
             for v in r['violations']:
                 inp = binascii.unhexlify(v['input'])
                 prior = PRIORS[r['task'][1]][0]
-                if v['kind'] == 'after-failed-loads':
+                if v['kind'] == 'corrupt-tree':
+                    cls = 'C14.corrupt-tree'
+                    what = 'conf_read() of %r succeeds on prior state %s but leaves a structurally broken live tree (child list that does not end / child with a foreign parent)' % (inp[:80], prior)
+                elif v['kind'] == 'after-failed-loads':
                     cls = 'C14.failed-load-left-traces'
                     what = 'conf_read() of %r succeeds on prior state %s, but after %d rejected load(s) in the same process (first: %r) it produces a different tree than in a fresh process' % (
                         inp[:80], prior, v.get('failed_before', 0), binascii.unhexlify(v.get('first_failed', ''))[:60])
